@@ -20,3 +20,8 @@ func VerifClientRefresh(m *Module) error {
 func VerifClientUpdate(m *Module, serviceID string) error {
 	return m.clientUpdater.updateService(context.Background(), m.allDefinitions[serviceID])
 }
+
+// VerifClientValidate runs the part of the pass that follows the update: validate what is not validated yet, remove revoked presentations.
+func VerifClientValidate(m *Module) error {
+	return errors.Join(m.registrationManager.validate(), m.registrationManager.removeRevoked())
+}
